@@ -5,7 +5,12 @@ PROPS = {
     "C17": dict(level="exploration", shards=16, thorough_layers=["stress", "tsan", "asan"],
                 layer_cfg={"tsan": dict(shards=2, timeout=3000), "stress": dict(shards=2, args={"mode": "stress"}), "asan": dict(scale=0.25, timeout=2400)}),
     "C16": dict(level="exploration", shards=16, thorough_layers=["asan", "miri"], layer_cfg={"asan": dict(scale=0.25, timeout=2400), "miri": dict(shards=16, timeout=3000)}),
-    "C13": dict(level="exploration", shards=16, thorough_layers=["asan", "miri"], layer_cfg={"asan": dict(scale=0.25, timeout=2400), "miri": dict(shards=16, timeout=3000)}),
+    "C13": dict(level="exploration", shards=16, thorough_layers=["asan", "miri"],
+                layer_cfg={"asan": dict(scale=0.25, timeout=2400),
+                           # Stacked AND Tree Borrows flag the library's own async_generator unit tests (shared reborrow of the
+                           # suspended, self-referential task in Generator::poll_next): the open UnsafePinned question, not a
+                           # property of /repo that we check.  All other Miri checks (UB, data races, uninit, OOB, leaks) stay on.
+                           "miri": dict(shards=16, timeout=3000, env={"MIRIFLAGS": "-Zmiri-disable-isolation -Zmiri-disable-stacked-borrows"})}),
     "C11": dict(level="exploration", shards=16, thorough_layers=[]),
     "C12": dict(level="exploration", shards=16, thorough_layers=[]),
     "C14": dict(level="exploration", shards=16, thorough_layers=["asan"], layer_cfg={"asan": dict(scale=0.25, timeout=2400)}),
